@@ -24,7 +24,12 @@ def self_field(n):
 
 
 def ok_rows(body):
-    return [r for r in table(body) if r.end == "return" and result_variant(r.ret) == "Ok"]
+    out = []
+    for r in table(body):
+        if r.end == "return" and result_variant(r.retn) == "Ok":
+            r.ret = r.retn  # `x.map(f)` read as Ok(f(x))
+            out.append(r)
+    return out
 
 
 def R1_floor(ctx):
@@ -70,6 +75,13 @@ def R1_floor(ctx):
             ctx.check(got.equals(want), fn + ":total", "the floored total is %r, expected %r (vehicle part%s)" % (got, want, " + network part" if net_fn else ""), b.where(), detail=repr(got))
 
 
+def got_symbols(r):
+    out = set(r.p.symbols())
+    if getattr(r, "q", None) is not None:
+        out |= set(r.q.symbols())
+    return out
+
+
 def R2_helpers(ctx):
     """C07.R2 helper semantics and constants"""
     F = ctx.F
@@ -81,10 +93,10 @@ def R2_helpers(ctx):
         neg = canon_fact((fact_true[0], fact_true[1], fact_true[2]), False)
         seen = set()
         for r in rows:
-            if fact_true in r.facts:
+            if fact_true in r.facts or implies(r.facts, fact_true):
                 seen.add("low")
                 ctx.check(r.ret == repl, fn + ":low", "for c %s 0 the result is %s, expected %s" % ("<=" if fact_true[0] == "Le" else "<", short(r.ret), short(repl)), b.where(), detail=short(r.ret))
-            elif neg in r.facts:
+            elif neg in r.facts or implies(r.facts, neg):
                 seen.add("high")
                 ctx.check(r.ret == ("arg", 1), fn + ":high", "a cost above the floor is not returned unchanged: %s" % short(r.ret), b.where(), detail=short(r.ret))
             else:
@@ -313,34 +325,21 @@ def R4_formula(ctx, rid="C07.R4"):
     one, zero = ("item", COST + "::ONE"), ("item", COST + "::ZERO")
     # Sum: accumulator starts at ZERO, updated by acc + cost in a loop over all items; Mul: starts at ONE, acc * cost; empty => ZERO
     kinds = {}
-    for l, ds in ab.defs.items():
-        if ab.locals[l]["ty"] != COST:
-            continue
-        whole = [(bb, pos) for (bb, pos, proj) in ds if pos != "term" and not proj]
-        if len(whole) != 2:
-            continue
-        terms = [(bb, nosite(deep_strip(tm.rvalue(ab.blocks[bb]["stmts"][pos]["rv"], bb, pos)))) for bb, pos in whole]
-        inits = [(bb, t) for bb, t in terms if t in (one, zero)]
-        upds = [(bb, t) for bb, t in terms if t not in (one, zero)]
-        if len(inits) != 1 or len(upds) != 1:
-            continue
-        init = inits[0][1]
-        bb, t = upds[0]
-        t2 = rewrite(t, lambda x: ("arg", 99) if x[0] == "phi" and init in x[1] and any(y[0] == "loop" for y in x[1]) else None)
-        A = Arith(F, {("arg", 99): "acc"})
-        got = A.ev(t2)
-        syms = got.p.symbols() - {"acc"}
+    for acc in accumulations(ab):
+        A = Arith(F, {acc["acc"]: "acc"})
+        got = A.ev(acc["step"])
+        syms = got_symbols(got) - {"acc"}
         if len(syms) != 1:
             continue
         c = Ratio(Poly.sym(next(iter(syms))))
-        acc = Ratio(Poly.sym("acc"))
-        in_loop = innermost_loop(ab, bb) is not None
-        if got.equals(acc + c):
-            kinds["Sum"] = init
-            ctx.check(in_loop, "agg:Sum:update-in-loop", "the `+` accumulator update is not inside the loop over the costs", ab.where(bb))
-        elif got.equals(acc * c):
-            kinds["Mul"] = init
-            ctx.check(in_loop, "agg:Mul:update-in-loop", "the `*` accumulator update is not inside the loop over the costs", ab.where(bb))
+        a_ = Ratio(Poly.sym("acc"))
+        # the other operand must be the element's cost (second component of the iterated pair)
+        esym = [k for k, v in A.opaque.items() if v == next(iter(syms))]
+        from_elem = bool(esym) and acc["elem"] is not None and contains(esym[0], lambda q: q == acc["elem"])
+        if got.equals(a_ + c) and from_elem:
+            kinds["Sum"] = acc["seed"]
+        elif got.equals(a_ * c) and from_elem:
+            kinds["Mul"] = acc["seed"]
     ctx.check(kinds.get("Sum") == zero, "agg:Sum", "Sum is not a `+` fold seeded with ZERO (found %s)" % short(kinds.get("Sum")) if kinds.get("Sum") else "no `acc + cost` accumulator seeded with ZERO found", ab.where(), detail="acc + cost from ZERO")
     ctx.check(kinds.get("Mul") == one, "agg:Mul", "Mul is not a `*` fold seeded with ONE", ab.where(), detail="acc * cost from ONE")
     # each accumulator is what its variant returns
